@@ -282,6 +282,45 @@ def run_history(case):
     return {"nt": nprobe >= 1 and len(case["steps"]) >= 3, "cls": sorted({c["op"] for c in case["probes"]}), "out": {"repeated_probes": nprobe}}
 
 
+PURE_COPYING = {
+    "cfg": ["cfg_to_chomsky", "cfg_add_new_start_variable", "cfg_remove_epsilon_rules", "cfg_eliminate_unit_rules", "cfg_make_rules_of_length_two", "cfg_eliminate_terminals",
+            "cfg_remove_inproductive_variables", "cfg_remove_useless_rules"],
+    "pda": ["pda_to_push_pop", "pda_to_accept_on_empty_stack"],
+}
+
+
+def run_result_independent(case):
+    """The non-in_place grammar and PDA functions are 'deep copy + in_place' by construction, so the result shares nothing with the argument: modifying the result in
+    place (as the library's own pipelines do with intermediate results) must leave the argument untouched - 'after any other library calls' in the property."""
+    kind, name, spec = case["kind"], case["op"], case["spec"]
+    base = "cfg" if kind == "cfg" else "pda"
+    obj = KINDS[base][0](spec)
+    want = canon_of(base, spec)
+    fn = getattr(CA if base == "cfg" else PA, name)
+    res = lib(fn, obj, "S") if name == "cfg_add_new_start_variable" else lib(fn, obj)
+    for j in case["then"]:
+        fns = IN_PLACE[base]
+        try:
+            fns[j % len(fns)](res)
+        except Exception:
+            pass              # preconditions of the in-place step on the *result* are not the subject here
+    now = KINDS[base][1](obj)
+    if now != want:
+        diff = [k for k in want if now.get(k) != want[k]]
+        raise Fail("argument_changed_later:" + name, "the argument of %s changed (fields %s) when its result was modified in place afterwards: result and argument share mutable parts" % (name, diff))
+    return {"nt": nontrivial({"args": {"x": spec}}), "cls": [name], "out": {}}
+
+
+@st.composite
+def result_independent_cases(draw, tier):
+    kind = draw(st.sampled_from(["cfg", "cfg", "pda"]))
+    if kind == "cfg":
+        spec = draw(st.one_of(GC.cfg_specs(max_vars=4, terms=("a", "b"), max_len=4), GC.unit_chain_specs(max_len=4)))
+    else:
+        spec = draw(safe_pda())
+    return {"kind": kind, "op": draw(st.sampled_from(PURE_COPYING[kind])), "spec": spec, "then": draw(st.lists(st.integers(0, 9), min_size=1, max_size=3))}
+
+
 # ---------------- generators ----------------
 
 def pda_safe(spec):
@@ -398,6 +437,9 @@ CLAUSES = [
                 "signatures case by case; non-trivial: non-empty result for an argument with >= 2 states / variables"),
     Clause("logging", logging_cases, run_logging, quick=800, thorough=6000,
            rule="every registry operation with GambaTools.enable_logging off and on (stdout swallowed): same signature, arguments intact"),
+    Clause("result_independent", result_independent_cases, run_result_independent, quick=500, thorough=4000,
+           rule="grammar and PDA functions without the in_place suffix x 1-3 in-place operations applied to their *result* afterwards: the argument's content must still be the "
+                "original one (no shared mutable parts); non-trivial: an argument with >= 2 variables / states"),
     Clause("history", history_cases, run_history, quick=500, thorough=4000,
            rule="model-based programs: probes (operation, argument specs) interleaved with other probes, _in_place operations on private copies, logging toggles and closure-limit "
                 "changes; a probe must reproduce its first signature whenever it is repeated on freshly rebuilt equal arguments; non-trivial: >= 3 steps with a repeated probe"),
